@@ -163,6 +163,16 @@ def install(ctx):
         ip.path.effect('lock', lk.name, mode)
         return GuardM(lk, mode)
 
+    @M.reg('Mutex::new', 'RwLock::new')
+    def lock_new(ip, pc, args, dt):
+        ip.path.counter += 1
+        return LockM('%s#%d' % (pc['segs'][-1].lower(), ip.path.counter), Cell(args[0], 'locked'))
+
+    @M.reg('<FutureExt>::shared', 'FutureExt::shared')
+    def shared(ip, pc, args, dt):
+        from models_async import Leaf
+        return Leaf('deleted', args[0])
+
     # ---------------------------------------------------------- logging / formatting
     @M.reg('log::max_level', 'max_level')
     def max_level(ip, pc, args, dt):
